@@ -236,6 +236,9 @@ VERUS = {
     'grow': dict(props=['C13', 'C08', 'C12'], tier='quick',
                  desc='reserve_rehash_inner, RawTable::reserve, RawTable::try_reserve and RawTableInner::with_capacity on extracted text against the contracts of rehash_in_place, resize_inner and fallible_with_capacity (the hint::unreachable_unchecked() calls are proved dead): success gives room and loses nothing, tombstones are reclaimed in place exactly when len+additional <= capacity/2, otherwise growth to at least max(len+additional, capacity+1), errors only in fallible mode with nothing changed, unrepresentable requests reported; plus the churn lemma L6: every growth step the contract allows, with at most m live elements and additional = 1, lands on at most max(16, 5(m+1)) buckets, so along any insert/remove history buckets <= max(initial, that bound)',
                  paired={}),
+    'rehash': dict(props=['C13', 'C01', 'C06', 'C03'], tier='quick',
+                   desc='rehash_in_place (the path on which no callback unwinds; the scope guard closure is unit guard) and is_in_same_group on extracted text, together with the functions they call (prepare_rehash_in_place, find_insert_slot, set_ctrl, set_ctrl_hash, replace_ctrl_hash, ...), for every table size and both widths, element storage as a ghost sequence of element identities, the hasher an arbitrary function of the element: afterwards no tombstone is left, growth_left is the full slack, every FULL bucket carries the tag of its element and is reachable by a probe for its hash (every window probed before it is entirely FULL), and the multiset of elements is unchanged (none lost, none duplicated); both loops terminate (the inner one because every swap turns a DELETED byte FULL); every bucket access in bounds, every raw element copy/swap between two different buckets',
+                   paired={}),
     'iter': dict(props=['C09', 'C19', 'C02'], tier='quick',
                  desc='the raw iterator core on extracted text, control pointers and buckets kept as indices into an arbitrary table (any power-of-two size, both widths): RawIterRange::new (yields exactly the FULL buckets of its range), RawIterRange::next_impl in checked and unchecked mode (returns the smallest remaining FULL bucket, consumes exactly it, None only when nothing is left, every group load aligned and in bounds, terminates), RawIter::next (items counts exactly what is left; None iff items == 0), RawIterRange::split (the two halves partition the remaining buckets, both again well-formed)',
                  paired={}),
